@@ -179,6 +179,8 @@ func (p *instancePool) warmUpGun(ctx context.Context) error {
 }
 
 type poolAsyncRunHandle struct {
+	// Pool run context. Done, when nobody awaits pool run result anymore.
+	poolCtx             context.Context
 	runCtx              context.Context
 	runCancel           context.CancelFunc
 	instanceStartCtx    context.Context
@@ -192,6 +194,7 @@ type poolAsyncRunHandle struct {
 }
 
 func (p *instancePool) runAsync(runCtx context.Context) (*poolAsyncRunHandle, error) {
+	poolCtx := runCtx
 	// Canceled in case all instances finish, fail or run runCancel.
 	runCtx, runCancel := context.WithCancel(runCtx)
 	_ = runCancel
@@ -223,6 +226,7 @@ func (p *instancePool) runAsync(runCtx context.Context) (*poolAsyncRunHandle, er
 		startRes <- startResult{started, err}
 	}()
 	return &poolAsyncRunHandle{
+		poolCtx:             poolCtx,
 		runCtx:              runCtx,
 		runCancel:           runCancel,
 		instanceStartCtx:    instanceStartCtx,
@@ -318,9 +322,11 @@ func (ah *runAwaitHandle) awaitRun() {
 }
 
 func (ah *runAwaitHandle) onErrAwaited(err error) {
+	// Run context is canceled by the handle itself, when all instances are finished,
+	// so only pool context cancel means, that error is not awaited anymore.
 	select {
 	case ah.awaitErr <- err:
-	case <-ah.runCtx.Done():
+	case <-ah.poolCtx.Done():
 		if err != ah.runCtx.Err() {
 			ah.log.Debug("Error suppressed after run cancel", zap.Error(err))
 		}
